@@ -72,7 +72,7 @@ def check(ctx):
 
 
 ARITY = {"Create": 0, "Destroy": 0, "PopBack": 0, "Clear": 0, "Front": 0, "Back": 0, "PushBack": 1, "EmplaceBack": 1, "EraseAt": 1, "Resize": 1, "Reserve": 1,
-         "CopyCtor": 1, "MoveCtor": 1, "CopyAssign": 1, "MoveAssign": 1, "Eq": 1, "Less": 1, "At": 1, "Index": 1, "Insert": 2, "Emplace": 2, "Erase": 2}
+         "CopyCtor": 1, "MoveCtor": 1, "CopyAssign": 1, "MoveAssign": 1, "Eq": 1, "Less": 1, "At": 1, "Index": 1, "Insert": 2, "Emplace": 2, "Erase": 2, "PushBackSelf": 1, "EmplaceBackSelf": 1, "InsertSelf": 2}
 
 
 def vec_script(events):
